@@ -123,9 +123,13 @@ def suite(ids):
                 print(sid, "does not apply")
                 continue
             t0 = time.time()
-            rc, out = sh("go test -vet=off -count=1 -timeout 25m ./... 2>&1 | grep -v '^ok\\|no test files' | tail -30", cwd=wt, timeout=3000)
-            rc2, out2 = sh("go test -vet=off -count=1 -timeout 25m ./... 2>&1 | grep -c '^ok'", cwd=wt, timeout=10) if False else (0, "")
-            passed = out.strip() == ""
+            rc, out = sh("go test -vet=off -count=1 -timeout 25m ./... 2>&1 | grep -E '^(ok|FAIL|--- FAIL|panic)'", cwd=wt, timeout=3000)
+            # the 8 tests of tests/failpoint fail in the recorded baseline too (gofail failpoints are not compiled in)
+            bad = [l for l in out.splitlines() if not l.startswith("ok") and "tests/failpoint" not in l and l.strip() != "FAIL"
+                   and not re.match(r"--- FAIL: (TestFailpoint_|TestIssue72|TestTx_Rollback_Freelist)", l)]
+            oks = [l for l in out.splitlines() if l.startswith("ok")]
+            passed = not bad and len(oks) >= 7
+            out = "\n".join(bad) if bad else "ok packages: %d" % len(oks)
             meta.setdefault("confirmed", {})["suite_with_patch"] = "PASS" if passed else "FAIL: " + out[-800:]
             meta["confirmed"]["suite_wall_s"] = round(time.time() - t0)
             print(sid, "suite", "PASS" if passed else "FAIL", round(time.time() - t0), "s", flush=True)
